@@ -61,9 +61,10 @@ from okdmr.dmrlib.motorola.automatic_registration_service import AutomaticRegist
 
 EXPLANATION = ("C19: both calls' arguments are symbolic, so 'r1 == r0' is decided for every pair of argument values at once; a stale cache, a shared register, a mutable "
                "default argument or an in-place change of an argument shows as a model (A, B).")
-BOUNDS = {"quick": "histories g, f, g for every ordered pair (f, g) of entry points inside each family (CRC, FEC, PDU, burst, Hytera, Motorola) and for every g against the burst and CRC-CCITT entry points; "
+BOUNDS = {"quick": "g(B) in the import-time state compared with g(B) after f(A) [and f'(C)] started from the import-time state, for every ordered pair (f, g) of entry points inside each family (CRC, FEC, PDU, burst, Hytera, Motorola) and for every g against the burst and CRC-CCITT entry points; "
                    "argument sizes: one representative size per entry point", "thorough": "all ordered pairs of the 40 entry points; histories g, f, f', g inside the families"}
-OUTSIDE = "histories longer than 3; comparison against a freshly started interpreter (the design's freshness clause was not built: state isolation between explored paths restores the import-time state instead); the asyncio handlers (stateful by design)"
+OUTSIDE = ("histories longer than 3; 'fresh interpreter state' is the import-time state of the library's module- and class-level containers / plain attributes, functools caches and "
+           "mutable default arguments as restored by vf/state.py (state kept elsewhere, e.g. in closures or C-level objects, is outside); the asyncio handlers (stateful by design)")
 ASSUMPTIONS = ["arguments are regenerated per call from the same symbolic variables, so an entry point that damages its argument is seen through the unchanged-buffer obligation, not masked by it"]
 
 
@@ -584,13 +585,19 @@ def h_pair(hx, g, f, extra=None):
 
 def pair_body(hx, g, f, extra):
     snap = [((n, d), freeze(d)) for n, d in mutable_defaults()]
-    s0, r0 = call(hx, g, "B", "clock0")
+    s0, r0 = call(hx, g, "B", "clock0")              # reference: g(B) in the state the library has right after import
+    defaults_unchanged(hx, snap, "after %s" % g)
+    # "the same call in a fresh interpreter state": everything g(B) may have left behind (module / class level containers and attributes,
+    # functools caches, mutable default arguments) is put back to its import-time value, so that the second g(B) below is compared with a
+    # first call that could not have primed any cache for itself
+    from vf import state
+    state.process_guard().restore()
     call(hx, f, "A", "clock1")
-    defaults_unchanged(hx, snap, "after %s and %s" % (g, f))
+    defaults_unchanged(hx, snap, "after %s" % f)
     if extra:
         call(hx, extra, "C", "clock2")
     s1, r1 = call(hx, g, "B", "clock3")
-    what = "%s, then %s%s, then %s again (each call at its own arbitrary wall-clock instant)" % (g, f, (" and " + extra) if extra else "", g)
+    what = "%s in a fresh state vs. %s after %s%s (each call at its own arbitrary wall-clock instant)" % (g, g, f, (" and " + extra) if extra else "")
     hx.prove(s0 == s1, "%s: the same arguments succeed / fail the same way" % what)
     if s0 == "ok" and s1 == "ok":
         hx.prove(same_value(r0, r1), "%s: same result for the same arguments" % what)
